@@ -1,52 +1,123 @@
 mod ast;
 mod calls;
 mod dfa;
+mod driver;
 mod exec;
 mod gen;
+mod json;
 mod model;
 mod queries;
 mod rng;
+mod runner;
+mod shrink;
 mod trace;
 
 use gen::Prop;
 
+fn usage() -> ! {
+    eprintln!(
+        "usage:
+  smtsim check <C01|C02|C03|C05|C07|C10|C16|C18|C19> <quick|thorough>
+  smtsim replay <file>
+  smtsim determinism [runs-per-property]
+  smtsim one <prop> <seed> [--log]        run one seed (with replicas), print trace, log, verdict
+  smtsim bench <prop> <n>                 in-process loop, no evidence
+  smtsim worker ...                       (internal)"
+    );
+    std::process::exit(2);
+}
+
 fn main() {
+    // panics of the code under test are caught and classified; keep stderr quiet
     std::panic::set_hook(Box::new(|_| {}));
     let args: Vec<String> = std::env::args().collect();
     let cmd = args.get(1).map(|s| s.as_str()).unwrap_or("help");
-    match cmd {
+    let code = match cmd {
+        "check" => {
+            let prop = args.get(2).and_then(|p| Prop::from_name(p)).unwrap_or_else(|| usage());
+            let tier = args
+                .get(3)
+                .cloned()
+                .or_else(|| std::env::var("VERIF_TIER").ok())
+                .unwrap_or_else(|| "quick".into());
+            driver::cmd_check(prop, &tier)
+        }
+        "worker" => driver::cmd_worker(&args[2..]),
+        "replay" => driver::cmd_replay(args.get(2).unwrap_or_else(|| usage())),
+        "determinism" => {
+            let n = args.get(2).and_then(|x| x.parse().ok()).unwrap_or(2000);
+            driver::cmd_determinism(n)
+        }
         "one" => {
-            let prop = Prop::from_name(&args[2]).expect("property");
-            let seed: u64 = args[3].parse().expect("seed");
+            let prop = args.get(2).and_then(|p| Prop::from_name(p)).unwrap_or_else(|| usage());
+            let seed: u64 = match args.get(3) {
+                Some(x) if x.starts_with("idx:") => {
+                    let base = std::env::var("VERIF_SEED").ok().and_then(|x| x.parse().ok()).unwrap_or(driver::DEFAULT_SEED);
+                    driver::run_seed(base, prop, x[4..].parse().unwrap_or_else(|_| usage()))
+                }
+                Some(x) => x.parse().unwrap_or_else(|_| usage()),
+                None => usage(),
+            };
             let tr = gen::generate(seed, prop);
-            let cfg = exec::Config { props: prop.bit(), want_log: true, solo: None };
-            let out = exec::run_trace(&tr, &cfg);
+            if args.iter().any(|a| a == "--live") {
+                exec::LIVE.store(1, std::sync::atomic::Ordering::Relaxed);
+                eprint!("{}", tr.to_text());
+            }
+            let c = runner::check_trace(&tr, prop.bit(), true);
             print!("{}", tr.to_text());
-            for l in &out.log { println!("{l}"); }
-            println!("violation: {:?}", out.violation);
-            println!("harness: {:?} foreign: {:?}", out.harness, out.foreign);
-            println!("stats: {:?}", out.stats);
+            if args.iter().any(|a| a == "--log") {
+                for l in &c.out.log {
+                    println!("{l}");
+                }
+            }
+            println!("violation: {:?}", c.out.violation);
+            println!("harness: {:?} foreign: {:?}", c.out.harness, c.out.foreign);
+            println!("stats: {:?}", c.out.stats);
+            if c.out.violation.is_some() { 1 } else { 0 }
         }
         "bench" => {
-            let prop = Prop::from_name(&args[2]).expect("property");
-            let n: u64 = args[3].parse().unwrap();
+            let prop = args.get(2).and_then(|p| Prop::from_name(p)).unwrap_or_else(|| usage());
+            let n: u64 = args.get(3).and_then(|x| x.parse().ok()).unwrap_or(100);
             let t0 = std::time::Instant::now();
-            let mut viol = 0; let mut harness = 0; let mut steps = 0; let mut evals = 0u64; let mut foreign = 0;
+            let (mut viol, mut harness, mut foreign, mut steps, mut evals) = (0, 0, 0, 0, 0u64);
             let mut rules: std::collections::BTreeMap<String, u64> = Default::default();
+            let mut stats: std::collections::BTreeMap<&'static str, u64> = Default::default();
             for i in 0..n {
-                let tr = gen::generate(rng::mix(12345, i), prop);
-                let cfg = exec::Config { props: prop.bit(), want_log: false, solo: None };
-                let out = exec::run_trace(&tr, &cfg);
-                if let Some(v) = &out.violation { viol += 1; *rules.entry(v.rule.to_string()).or_insert(0) += 1; if viol <= 3 { println!("seed idx {i}: {:?}", v); } }
-                if let Some(h) = &out.harness { harness += 1; println!("HARNESS idx {i}: {h}"); }
-                if out.foreign.is_some() { foreign += 1; }
-                steps += out.steps_done; evals += out.stats.get("evaluations").copied().unwrap_or(0);
+                let seed = driver::run_seed(driver::DEFAULT_SEED, prop, i);
+                let tr = gen::generate(seed, prop);
+                let c = runner::check_trace(&tr, prop.bit(), false);
+                let out = c.out;
+                if let Some(v) = &out.violation {
+                    viol += 1;
+                    *rules.entry(v.rule.to_string()).or_insert(0) += 1;
+                    if viol <= 3 {
+                        println!("seed {seed}: {:?}", v);
+                    }
+                }
+                if let Some(h) = &out.harness {
+                    harness += 1;
+                    println!("HARNESS seed {seed}: {h}");
+                }
+                if out.foreign.is_some() {
+                    foreign += 1;
+                }
+                for (k, v) in &out.stats {
+                    *stats.entry(k).or_insert(0) += v;
+                }
+                steps += out.steps_done;
+                evals += out.stats.get("evaluations").copied().unwrap_or(0);
             }
-            println!("{n} runs in {:?}: violations {viol} harness {harness} foreign {foreign} steps {steps} evals {evals} rules {:?}", t0.elapsed(), rules);
+            println!(
+                "{n} runs in {:?}: violations {viol} harness {harness} foreign {foreign} steps {steps} evals {evals} rules {:?}",
+                t0.elapsed(),
+                rules
+            );
+            for (k, v) in &stats {
+                println!("  {k} = {v}");
+            }
+            0
         }
-        _ => {
-            eprintln!("usage: smtsim one <prop> <seed>");
-            std::process::exit(2);
-        }
-    }
+        _ => usage(),
+    };
+    std::process::exit(code);
 }
